@@ -99,8 +99,8 @@ type c14 struct {
 	resolved  []string
 	checks    uint64
 	step      int
-	touched   []string // days added or changed by earlier fix-ups (bias: follow-up fix-ups hit the same records)
-	lastNames []string // the slice object most recently passed to Fix as names list
+	touched   []string       // days added or changed by earlier fix-ups (bias: follow-up fix-ups hit the same records)
+	lastNames []string       // the slice object most recently passed to Fix as names list
 	blocks    [][2]time.Time // first and last day of the recorded runs added so far
 	renames   int
 }
@@ -186,6 +186,9 @@ func safe(f func()) (p interface{}) {
 
 func runC14(s *spec.Spec, logPath string) {
 	setClock(s.Clock)
+	if s.Clock.Zone != "" {
+		probesC["process_zone_named"]++
+	}
 	simrt.Solo = true
 	c := &c14{s: s, out: &spec.Result{}, rng: s.Samples}
 	simrt.SoloFail = func(class, key string, d map[string]string) {
